@@ -266,6 +266,9 @@ func verifyFunc(p *Program, fn *ssa.Function, fc *FuncC, timeoutS int, filter0 f
 					// inner node of the bisection: only guides the search, so a short timeout is enough
 					r = solve(prefix+goalOf(os, whole)+"(check-sat)\n", 3, "")
 				}
+				if r.Result == "unsat" && crossCheck {
+					crossCheckQuery(prefix+goalOf(os, whole)+"(check-sat)\n", r.Solver, timeoutS)
+				}
 				if r.Result == "unsat" || len(os) == 1 {
 					record(os, r)
 					return
@@ -288,4 +291,30 @@ func verifyFunc(p *Program, fn *ssa.Function, fc *FuncC, timeoutS int, filter0 f
 		return res.Obls[i].ID < res.Obls[j].ID
 	})
 	return res
+}
+
+// thorough tier: every discharged batch is re-run on the other solvers; agreement is recorded and a
+// `sat` answer contradicting an `unsat` one is a hard tooling error.
+var crossCheck bool
+var crossMu sync.Mutex
+var crossStats = map[string]int{}
+
+func crossCheckQuery(q, winner string, timeoutS int) {
+	for _, s := range solvers {
+		if s.name == winner {
+			continue
+		}
+		r := solveSeed(q, timeoutS, s.name, solverSeed)
+		crossMu.Lock()
+		crossStats["queries"]++
+		switch r.Result {
+		case "unsat":
+			crossStats["agree_unsat"]++
+		case "sat":
+			crossStats["contradictions"]++
+		default:
+			crossStats["undecided"]++
+		}
+		crossMu.Unlock()
+	}
 }
